@@ -848,7 +848,8 @@ func (u *Unit) inlineLit(st *State, cl *closure, args []Value) []Value {
 // runInline executes a callee body in the caller's state and merges its return paths.
 func (u *Unit) runInline(st *State, fr *frame, sig *types.Signature, recv *Value, args []Value) []Value {
 	u.inlineDepth++
-	defer func() { u.inlineDepth-- }()
+	u.inlineSites = append(u.inlineSites, u.curPos)
+	defer func() { u.inlineDepth--; u.inlineSites = u.inlineSites[:len(u.inlineSites)-1] }()
 	if recv != nil && sig.Recv() != nil {
 		st.vars[sig.Recv()] = Value{T: sig.Recv().Type(), L: recv.L}
 	}
@@ -1105,7 +1106,18 @@ func (u *Unit) applyOnCall(st *State, cs *callSite) {
 		for k, a := range cs.args {
 			env[fmt.Sprintf("$arg%d", k)] = a
 		}
-		t := u.specBoolAt(st, u.old, env, c.Expr, c, cs.call.Pos())
+		// names in the clause are resolved in the function the clause belongs to: for a call made
+		// inside an inlined callee that is the position of the outermost call site
+		pos := cs.call.Pos()
+		var t Term
+		if len(u.frames) > 1 && len(u.inlineSites) > 0 {
+			saved := u.frames
+			u.frames = u.frames[:1]
+			t = u.specBoolAt(st, u.old, env, c.Expr, c, u.inlineSites[0])
+			u.frames = saved
+		} else {
+			t = u.specBoolAt(st, u.old, env, c.Expr, c, pos)
+		}
 		u.oblige(st, fmt.Sprintf("oncall#%d:%s@%s", i+1, pat, u.callName(cs.call)), "oncall", c.Props, t, cs.call.Pos(), c.Text)
 	}
 }
